@@ -1,9 +1,112 @@
-import MpVerif.C11.ModelParse
-/-! # C11 — property theorems (work in progress) -/
+import MpVerif.C11.LemmasStep
+/-!
+# C11 — Solver option parsing is total, faithful and ordered: property theorems
+
+The model (`Model.lean`, `ModelParse.lean`) mirrors `src/solver.cc` / `include/mp/solver-opt.h`
+as they are; its agreement with the real code is checked on every run by `checks/c11.py`.
+Only property theorems (named `C11_*`) and non-vacuity examples live here.
+-/
 namespace MpVerif.C11
 
-/-- Every iteration of the `ParseOptionString` loop that goes on has consumed at least one byte. -/
+/-! ## totality: progress and termination -/
+
+/-- Every iteration of the `ParseOptionString` loop that goes on has consumed at least one byte.
+(This is the fact that makes Lean accept `parseStr` as a total function: fuel-free well-founded
+recursion on the remaining length.) -/
 theorem C11_progress (cfg : Cfg) (s s' : Bytes) (st st' : St)
     (h : step cfg s st = .cont s' st') : s'.length < s.length := step_progress h
+
+/-- The loop runs at most `length s` iterations, for every byte string and every table. -/
+theorem C11_terminates_within (cfg : Cfg) (s : Bytes) (st : St) : parseIters cfg s st ≤ s.length + 1 := by
+  induction hn : s.length using Nat.strongRecOn generalizing s st with
+  | _ n ih =>
+    rw [parseIters]
+    split
+    · omega
+    · rename_i s' st' h
+      have hp := step_progress h
+      have := ih s'.length (by omega) s' st' rfl
+      omega
+    · omega
+
+theorem renderAll_startsItem (cfg : Cfg) (items : List (Item × Bytes)) (h : ItemsWF cfg items) :
+    StartsItem (renderAll items) := by
+  cases items with
+  | nil => trivial
+  | cons x rest =>
+    obtain ⟨it, trail⟩ := x
+    obtain ⟨hwf, _⟩ := h
+    have hk : KeyOk' it.key ∧ ∃ X, it.render = it.key ++ X := by
+      cases it with
+      | assign key sep lit => exact ⟨hwf.1, _, rfl⟩
+      | query key sep => exact ⟨hwf.1, _, rfl⟩
+      | unknown key pre eq => exact ⟨hwf.1, _, rfl⟩
+      | flagArg key pre post junk => exact ⟨hwf.1, _, rfl⟩
+    obtain ⟨⟨⟨hne, hkc⟩, hq⟩, X, hX⟩ := hk
+    simp only [renderAll, hX]
+    cases hkey : it.key with
+    | nil => exact absurd hkey hne
+    | cons c r =>
+      simp only [List.cons_append, StartsItem]
+      exact ⟨hkc c (by simp [hkey]), hq c r hkey⟩
+
+/-! ## faithfulness: parse ∘ print = apply -/
+
+/-- **Faithfulness.**  For every option table, every list of well-formed items — assignments
+addressed by any key that `lookup` resolves (name or synonym in any letter case, wildcard pattern),
+written with or without `=`, with integer (in `int` range), real, quoted or bare string value (or
+the rest-of-element string on the command line), flags, `key=?` queries, unknown keys, values
+given to flags — separated by blanks, with arbitrary leading blanks: parsing the rendered text
+terminates normally in exactly the state obtained by applying the items one after the other.
+`applyItem` involves no lexing: it stores the denoted value in the resolved option, records the
+echo, or records the error. -/
+theorem C11_faithful (cfg : Cfg) (hthrow : cfg.throwing = false) (items : List (Item × Bytes))
+    (h : ItemsWF cfg items) (lead : Bytes) (hlead : Blank lead) (st : St) :
+    parseStr cfg (lead ++ renderAll items) st = (.ok, applyAll cfg items st) := by
+  induction items generalizing lead st with
+  | nil =>
+    simp only [renderAll, List.append_nil, applyAll, List.foldl_nil]
+    exact parseStr_done (step_blank_done cfg st hlead)
+  | cons x rest ih =>
+    obtain ⟨it, trail⟩ := x
+    obtain ⟨hwf, htrail, hsepar, hrawc, hrest⟩ := h
+    have hn := renderAll_startsItem cfg rest hrest
+    have hend : trail = [] → renderAll rest = [] := by
+      intro ht
+      cases rest with
+      | nil => rfl
+      | cons y ys => exact absurd ht (hsepar (by simp))
+    have hK : EndsToken (trail ++ renderAll rest) := by
+      cases trail with
+      | nil => simp [hend rfl, EndsToken, StopsAt]
+      | cons c r => simp [EndsToken, StopsAt, htrail.head]
+    have happ : applyAll cfg ((it, trail) :: rest) st = applyAll cfg rest (applyItem cfg it st) := by
+      simp [applyAll]
+    simp only [renderAll]
+    rw [happ]
+    cases it with
+    | assign key sep lit =>
+      by_cases hf : lit = .flagOn
+      · subst hf
+        rw [parseStr_cont (step_flag hlead hwf htrail hn hend)]
+        simpa using ih hrest [] Blank.nil (applyItem cfg (.assign key sep .flagOn) st)
+      · have hraw : ∀ b, lit = .raw b → StopsAt (fun c => c.toNat != 10) (trail ++ renderAll rest) := by
+          intro b hb
+          subst hb
+          obtain ⟨hs, he⟩ := hrawc rfl
+          cases trail with
+          | nil => rw [hend rfl]; trivial
+          | cons c r => simpa [StopsAt] using hs
+        rw [parseStr_cont (step_assign hlead hwf hf hK hraw)]
+        exact ih hrest trail htrail _
+    | query key sep =>
+      rw [parseStr_cont (step_query hlead hwf hK)]
+      exact ih hrest trail htrail _
+    | unknown key pre eq =>
+      rw [parseStr_cont (step_unknown hlead hwf hthrow htrail hn hend)]
+      simpa using ih hrest [] Blank.nil (applyItem cfg (.unknown key pre eq) st)
+    | flagArg key pre post junk =>
+      rw [parseStr_cont (step_flagArg hlead hwf hthrow hK)]
+      exact ih hrest trail htrail _
 
 end MpVerif.C11
